@@ -280,6 +280,14 @@ Definition section_tail (o : options) (st : dstate) (file_to_patch output_file :
   mret (st6, s2).
 
 
+(* fix_permissions_if_needed: the permissions an earlier section of this run is going to leave the file with (its write is
+   still deferred) count before those on disk *)
+Definition effective_perms (st : dstate) (m : fsmap) (f : list N) : N :=
+  match find (fun d => str_eqb (d_dest d) f) (rev (deferred_writes st)) with
+  | Some d => match d_perm_after d with Some pm => pm | None => get_permissions m f end
+  | None => get_permissions m f
+  end.
+
 (* one section of the loop in process_patch, after the header has been parsed *)
 Definition process_section (o : options) (st : dstate) (should : bool) (p : patch) (s : stream)
   : M (dstate * stream) :=
@@ -292,7 +300,7 @@ Definition process_section (o : options) (st : dstate) (should : bool) (p : patc
     let! ps := body_if should p s in
     let! st' := refuse_to_patch o st output_file (fst ps) in mret (st', snd ps)
   else
-  let old_perms := get_permissions m output_file in
+  let old_perms := effective_perms st m output_file in
   let needed := N.eqb (N.land old_perms write_mask) 0 in
   if needed && match read_only o with ROFail => true | _ => false end then
     let! ps := body_if should p s in
